@@ -116,6 +116,16 @@ Theorem C17_css_section_text_tree :
 Proof. exact section_items_tree. Qed.
 Print Assumptions C17_css_section_text_tree.
 
+(* select_item_css on the text: next / previous selector or declaration of the sheet's layout tree with its
+   full, value and value-token ranges *)
+Theorem C17_select_css_text :
+  forall (sh : sheet) (pos : Z) (is_prev : bool),
+    wf_sheet sh = true ->
+    select_item_css (render sh) pos is_prev =
+    if is_prev then prev_forest (render sh) (tree sh) pos else next_forest (render sh) (tree sh) pos.
+Proof. exact select_item_css_text. Qed.
+Print Assumptions C17_select_css_text.
+
 (* non-vacuity on text: the sheet  a{b:c;e{f:g;}h:i;}  of the grammar; at position 3 the outer rule with its two
    direct declarations (the nested rule's declaration is skipped, `before` of h:i is the end of the nested rule),
    at position 9 the nested rule *)
